@@ -120,6 +120,17 @@ package home
 // (the access check asked about the client reads the access lists and changes nothing here: assumed for the interface)
 //@ func (c BlockedClientChecker) IsBlockedClient(ip netip.Addr, clientID string) (blocked bool, rule string)
 //@   modifies nothing
+// The statistics' client finder goes through every identifier of the request (ClientID first, then the address): the
+// first one the storage knows decides, and only if it knows none the request is counted by default.
+//@ func (clients *clientsContainer) shouldCountClient(ids []string) (y bool)
+//@   property C08
+//@   requires nolocks()
+//@   ensures first-known-identifier-decides: forall k int :: 0 <= k && k < len(ids) && client.stHas(clients.storage, ids[k]) && (forall j int :: 0 <= j && j < k ==> !client.stHas(clients.storage, ids[j])) ==> y == !client.stIgnoresStats(clients.storage, ids[k])
+//@   ensures unknown-counted: (forall k int :: 0 <= k && k < len(ids) ==> !client.stHas(clients.storage, ids[k])) ==> y
+//@   modifies *
+//@   loop 1 invariant 0 <= #i && #i <= len(ids) && held(clients.lock) && clients.storage == old(clients.storage)
+//@   loop 1 invariant forall j int :: 0 <= j && j < #i ==> !client.stHas(clients.storage, ids[j])
+//@   loop 1 invariant forall j int :: 0 <= j && j < len(ids) ==> ids[j] == old(ids[j])
 //@ func (clients *clientsContainer) clientOrArtificial(ip netip.Addr, id string) (c *querylog.Client, art bool)
 //@   property C08
 //@   requires nolocks()
@@ -441,4 +452,12 @@ package home
 //@   construction
 //@   requires a.sessions != nil
 //@   ensures own-record: forall t string :: (t in a.sessions) && a.sessions[t] != old(a.sessions[t]) ==> fresh(a.sessions[t])
+//@   modifies *
+
+// ---- C18: a client's pause schedule sent with an update is the one stored ----
+//@ func copyBlockedServices(sch *schedule.Weekly, svcStrs []string, prev *client.Persistent) (svcs *filtering.BlockedServices, err error)
+//@   property C18
+//@   callsites-only
+//@   nullable sch, prev
+//@   ensures must-store-the-schedule-sent: err == nil && sch != nil ==> svcs != nil && svcs.Schedule == lastClone && lastCloneSrc == sch
 //@   modifies *
